@@ -126,6 +126,9 @@ pub struct Ctx {
     pub ord: u64,
     /// scratch file for open_file entry points
     pub scratch: std::path::PathBuf,
+    /// standard output of this process goes to /dev/null (worker subprocess): entry points that can
+    /// only print to stdout may be run
+    pub stdout_null: bool,
 }
 
 /// Strip what varies between two panics at the same place: numbers in the message, line numbers,
@@ -188,6 +191,7 @@ impl Ctx {
             idx: 0,
             ord: 0,
             scratch: std::env::temp_dir().join(format!("vx-robust-{}.dcm", std::process::id())),
+            stdout_null: false,
         }
     }
 
